@@ -104,4 +104,18 @@ CLAIMED.update({
     },
 })
 
+CLAIMED.update({
+    "C01": {
+        "text": "Theorems: (record level, all 16 scalar kinds) one record of a scalar field decodes to the value it was made from, consuming exactly its own bytes; a packed payload decodes "
+                "to exactly its list; packed chunks concatenate. (message level) roundtrip_flat_partial: for ALL schemas and ALL values of the flat fragment — any number of scalar fields, each "
+                "singular, proto3-optional, a oneof member (any number of groups) or repeated (packed or not), plus arbitrary unknown fields — parse(bytes(m)) succeeds, has the same oneof selection "
+                "and unknown fields, holds in every slot the original value or (where the original was not emitted) the unset default, and encodes to the same bytes; proved by induction over the "
+                "slot list with a decoder-state invariant. The assembly lemma roundtrip_of_steps is generic in the per-slot step. PARTIAL: the per-slot step for message-typed slots (nested / "
+                "recursive messages, maps, Timestamp/Duration, wrappers) is not proved; those are covered by the differential correspondence and the oracle.",
+        "note": TB + "in-range = WellTyped.lean (ints in the declared range, float32 patterns a Python float can hold, valid UTF-8); encodings shorter than 2^64 bytes; oneof members not `optional` (standard dataclasses).",
+        "technique": "Lean 4 proof (induction over slots with a decoder-state invariant; per-kind record inverses) + differential correspondence + round-trip oracle",
+        "design_ref": "DESIGN.md §7 C01",
+    },
+})
+
 NOT_CLAIMED = {}
